@@ -351,8 +351,99 @@ func genPoolSrc(repo string) (string, error) {
 		}
 	}
 
+	// ---- request accounting of the xprotocol pools: is the pool a listener of / does it count a one-way stream?
+	acct := map[string][2]bool{}
+	for _, pf := range []struct{ name, file, recv string }{
+		{"multiplex", "pkg/stream/xprotocol/connpool_multiplex.go", "poolMultiplex"},
+		{"pingpong", "pkg/stream/xprotocol/connpool_pingpong.go", "poolPingPong"},
+		{"binding", "pkg/stream/xprotocol/connpool_binding.go", "poolBinding"}} {
+		fs, ff, err := ParseGoFile(repo, pf.file)
+		if err != nil {
+			return "", err
+		}
+		fd := FindFunc(ff, pf.recv, "NewStream")
+		if fd == nil {
+			bad("%s NewStream not found", pf.name)
+			continue
+		}
+		// walk the top level; `if receiver == nil {..} else {..}` splits into one-way / two-way code, a body ending in return
+		// makes everything after it two-way only
+		var listen, count [2]bool // [one-way, two-way]
+		mark := func(n ast.Node, one, two bool) {
+			if containsCall(n, "AddEventListener") {
+				listen[0], listen[1] = listen[0] || one, listen[1] || two
+			}
+			if containsCall(n, "Increase") {
+				count[0], count[1] = count[0] || one, count[1] || two
+			}
+		}
+		oneAlive := true
+		for _, st := range fd.Body.List {
+			is, isIf := st.(*ast.IfStmt)
+			if isIf && exprStr(fs, is.Cond) == "receiver==nil" {
+				mark(is.Body, oneAlive, false)
+				if is.Else != nil {
+					mark(is.Else, false, true)
+				}
+				if n := len(is.Body.List); n > 0 {
+					if _, ret := is.Body.List[n-1].(*ast.ReturnStmt); ret {
+						oneAlive = false
+					}
+				}
+				continue
+			}
+			if isIf && strings.Contains(exprStr(fs, is.Cond), "receiver") {
+				bad("%s NewStream: unrecognised test on receiver: %s", pf.name, exprStr(fs, is.Cond))
+			}
+			mark(st, oneAlive, true)
+		}
+		if !listen[1] || !count[1] {
+			bad("%s NewStream: a two-way stream is not listened to / counted", pf.name)
+		}
+		acct[pf.name] = [2]bool{listen[0], count[0]}
+		// the listener's OnDestroyStream decrements unconditionally
+		recvAC := map[string]string{"multiplex": "activeClientMultiplex", "pingpong": "activeClientPingPong", "binding": "activeClientBinding"}[pf.name]
+		if od := FindFunc(ff, recvAC, "OnDestroyStream"); od == nil {
+			bad("%s OnDestroyStream not found", pf.name)
+		} else {
+			// the decrements are plain top-level statements (unconditional)
+			dec, res := false, false
+			for _, st := range od.Body.List {
+				if _, isExpr := st.(*ast.ExprStmt); !isExpr {
+					continue
+				}
+				txt := exprStr(fs, st)
+				dec = dec || strings.Contains(txt, "HostStats().UpstreamRequestActive.Dec(1)")
+				res = res || strings.Contains(txt, "Requests().Decrease()")
+			}
+			if !dec || !res {
+				bad("%s OnDestroyStream: the decrements are not unconditional top-level statements", pf.name)
+			}
+		}
+	}
+	destroyOneway := false
+	{
+		fs, ff, err := ParseGoFile(repo, "pkg/stream/xprotocol/stream.go")
+		if err != nil {
+			return "", err
+		}
+		if fd := FindFunc(ff, "xStream", "endStream"); fd == nil {
+			bad("xStream.endStream not found")
+		} else {
+			ast.Inspect(fd.Body, func(x ast.Node) bool {
+				if is, isIf := x.(*ast.IfStmt); isIf && containsCall(is.Body, "DestroyStream") {
+					c := exprStr(fs, is.Cond)
+					if strings.Contains(c, "s.receiver==nil") {
+						destroyOneway = true
+					}
+				}
+				return true
+			})
+		}
+	}
+
 	var b strings.Builder
-	b.WriteString("From MV Require Import Model.Pool Model.PoolMx.\n")
+	b.WriteString("From MV Require Import Model.Pool Model.PoolMx Model.PoolAcct.\n")
 	for _, n := range notes {
 		b.WriteString("(* " + strings.ReplaceAll(n, "*)", "* )") + " *)\n")
 	}
@@ -360,6 +451,10 @@ func genPoolSrc(repo string) (string, error) {
 	fmt.Fprintf(&b, "Definition poolmx_src_switches : mx_switches := mkMxSw %v %v.\n", mxFlag, mxOwn)
 	fmt.Fprintf(&b, "Definition poolinit_src_mx_dial_locked : bool := %v.\n", mxDialLocked)
 	fmt.Fprintf(&b, "Definition pooldestroy_src_http_close_first : bool := %v.\n", httpCloseFirst)
+	for _, n := range []string{"multiplex", "pingpong", "binding"} {
+		fmt.Fprintf(&b, "Definition poolacct_src_%s : apolicy := mkAP %v %v.\n", n, acct[n][0], acct[n][1])
+	}
+	fmt.Fprintf(&b, "Definition poolacct_src_destroy_oneway : bool := %v.\n", destroyOneway)
 	fmt.Fprintf(&b, "Definition PoolSrc_translator_ok := %v.\n", ok)
 	return b.String(), nil
 }
